@@ -430,6 +430,12 @@ func ruleP12Group(p *Prog, r *Report) {
 				okMap := grp != nil && sameValue(lk.X, grp)
 				// index = aggregator.DateHash(date), date element of the dates list (or the filled list)
 				n, _, a, _ := methodCall(lk.Index)
+				if hc, _ := callOf(strip(lk.Index)); n == "" && hc != nil {
+					// the method bound to a local once (`hashOf := aggregator.DateHash`)
+					if mc, isMC := deref(hc.Common().Value).(*ssa.MakeClosure); isMC && strings.HasSuffix(mc.Fn.Name(), "$bound") && sameValue(mc, gc[0].Common().Args[0]) {
+						n, a = strings.TrimSuffix(mc.Fn.Name(), "$bound"), hc.Common().Args
+					}
+				}
 				okIdx := n == "DateHash" && len(a) == 1 && rangeElemOf(a[0]) != nil
 				r.check(okMap && okIdx, rule, "report:row-total", p.instrPos(c), "row total = Total(group of the row's hash)", "a row's total is not computed from the group of the row's own hash")
 				// visited at most once: a MapUpdate seen[hash]=true dominates, guarded by !seen[hash]
@@ -636,6 +642,8 @@ func ruleP12Today(p *Prog, r *Report) {
 	}
 	// handle(): the grand total is current + other
 	h := p.fn("klog/app/cli", "handle")
+	var evFn *ssa.Function
+	evMixed := false
 	if r.anchorFn(rule, h, "cli.handle") {
 		sc := callsTo(h, f)
 		okUse := false
@@ -643,8 +651,19 @@ func ruleP12Today(p *Prog, r *Report) {
 			cur, oth := resultOf(sc[0], 0), resultOf(sc[0], 1)
 			var evals []ssa.CallInstruction
 			eachInstr(h, func(in ssa.Instruction) {
+				// the evaluation of one part: whatever it is called, the function of this package
+				// that is handed one of the two lists and answers with three durations
 				if c, ok := in.(ssa.CallInstruction); ok && staticCallee(c) != nil && fnBase(staticCallee(c)) == "evaluate" {
 					evals = append(evals, c)
+				} else if ok && staticCallee(c) != nil && staticCallee(c).Pkg == h.Pkg && len(c.Common().Args) > 0 && c.Common().Signature().Results().Len() == 3 {
+					if la := c.Common().Args[len(c.Common().Args)-1]; (cur != nil && sameValue(la, cur)) || (oth != nil && sameValue(la, oth)) {
+						evals = append(evals, c)
+						if evFn == nil {
+							evFn = staticCallee(c)
+						} else if !sameFn(evFn, staticCallee(c)) {
+							evMixed = true
+						}
+					}
 				}
 			})
 			if len(evals) == 2 && cur != nil && oth != nil {
@@ -674,15 +693,20 @@ func ruleP12Today(p *Prog, r *Report) {
 	}
 	// evaluate: Total / ShouldTotalSum / Diff of the same records
 	ev := p.method("klog/app/cli", "Today", "evaluate")
+	if ev == nil && evFn != nil && !evMixed {
+		ev = evFn
+		markAnchor(ev)
+	}
 	if r.anchorFn(rule, ev, "Today.evaluate") {
 		ok := false
+		recPar := ev.Params[len(ev.Params)-1]
 		for _, ret := range returnsOf(ev) {
 			c0, _ := callOf(retResult(ret, 0))
 			c1, _ := callOf(retResult(ret, 1))
 			c2, _ := callOf(retResult(ret, 2))
 			if c0 != nil && c1 != nil && c2 != nil && staticCallee(c0) != nil && staticCallee(c1) != nil && staticCallee(c2) != nil {
 				ok = fnBase(staticCallee(c0)) == "Total" && fnBase(staticCallee(c1)) == "ShouldTotalSum" && fnBase(staticCallee(c2)) == "Diff" &&
-					strip(c0.Common().Args[0]) == ssa.Value(ev.Params[1]) && strip(c1.Common().Args[0]) == ssa.Value(ev.Params[1]) &&
+					strip(c0.Common().Args[0]) == ssa.Value(recPar) && strip(c1.Common().Args[0]) == ssa.Value(recPar) &&
 					sameValue(c2.Common().Args[0], c1.Value()) && sameValue(c2.Common().Args[1], c0.Value())
 			}
 		}
